@@ -15,6 +15,7 @@ static Plan gen_c09(uint64_t seed, const std::string &tier) {
     World &w = p.world;
     w.socks["/run/snoopy-0.sock"] = SockNode(); w.socks["/run/snoopy-0.sock"].capacity = 1000; w.socks["/dev/log"].capacity = 1000;
     w.has_ctty = true;
+    if (r.chance(1, 4)) { w.socks["/run/snoopy-0.sock"].queued = w.socks["/run/snoopy-0.sock"].capacity; w.socks["/dev/log"].queued = w.socks["/dev/log"].capacity; }   // nobody reads the sockets: every send fails
     if (w.environ_null) { w.environ_null = false; }
     if (w.stdout_kind == 3) w.stdout_kind = 0;   // closed standard descriptors are explored single-threaded only (the streams are shared by the harness threads)
     w.env.push_back("K1=envvalue");
@@ -25,9 +26,10 @@ static Plan gen_c09(uint64_t seed, const std::string &tier) {
     static const char *outs[] = {"file:/log/c09.log", "file:/log/c09-%{tid_kernel}.log", "devlog", "socket:/run/snoopy-0.sock", "stderr", "stdout", "devtty", "devnull"};
     s.has_output = true; s.output = outs[r.below(8)];
     switch (r.below(4)) {
-    case 0: s.has_chain = true; s.chain = "exclude_uid:" + std::to_string(w.uid + 1) + ";exclude_spawns_of:nosuch"; break;
+    // uid lists of several entries with the decisive one last: a thread that loses its place in its list decides wrongly
+    case 0: s.has_chain = true; s.chain = "exclude_uid:" + std::to_string(w.uid + 1) + "," + std::to_string(w.uid + 2) + "," + std::to_string(w.uid + 3) + ";only_uid:" + std::to_string(w.uid + 7) + "," + std::to_string(w.uid + 8) + "," + std::to_string(w.uid) + ";exclude_spawns_of:nosuch,nosuch2"; break;
     // a chain whose LAST element drops: every call of every thread must stay silent, whatever the other threads do to the walk over the chain
-    case 1: s.has_chain = true; s.chain = "exclude_uid:" + std::to_string(w.uid + 1) + ";exclude_spawns_of:nosuch;only_uid:" + std::to_string(w.uid + 1); break;
+    case 1: s.has_chain = true; s.chain = "exclude_uid:" + std::to_string(w.uid + 1) + ";exclude_spawns_of:nosuch;" + (r.chance(1, 2) ? "only_uid:" + std::to_string(w.uid + 1) + "," + std::to_string(w.uid + 2) : "exclude_uid:" + std::to_string(w.uid + 5) + "," + std::to_string(w.uid + 6) + "," + std::to_string(w.uid)); break;
     default: break;
     }
     p.ops.push_back(op_setconfig(s.render(r, true)));
@@ -52,6 +54,7 @@ static Plan gen_c09(uint64_t seed, const std::string &tier) {
     }
     b.policy = (int)r.below(4); b.pct_d = tier == "thorough" ? (int)r.range(1, 3) : (int)r.range(1, 2); b.sched_seed = r.next();
     if (b.policy == 3) b.sched_seed = seed / 4;   // consecutive seeds walk through (thread, park point) systematically
+    if (!stress && r.chance(2, 3)) b.app_opens = (int)r.range(4, 24);   // another thread of the program works with descriptors of its own meanwhile
     p.ops.push_back(b);
     // afterwards a lone call must again see exactly one registered thread
     CfgSpec s2; s2.has_format = true; s2.format = "lone T%{snoopy_threads}T %{filename}"; s2.has_output = true; s2.output = "file:/log/lone.log";
@@ -61,6 +64,7 @@ static Plan gen_c09(uint64_t seed, const std::string &tier) {
     return p;
 }
 static Verdict oracle_c09(const Plan &p, const RunResult &r) {
+    if (!r.app_damage.empty()) return bad("foreign-descriptor-closed", r.app_damage);
     auto calls = calls_of(p);
     int nmark = (int)p.extra.geti("markers");
     for (auto &cv : calls) {
@@ -72,14 +76,43 @@ static Verdict oracle_c09(const Plan &p, const RunResult &r) {
             return bad("thread-signal-mask-changed", "call #" + std::to_string(cv.opi) + " (thread " + std::to_string(o->thr) + "): the signal mask or the dispositions the thread had when it called exec are different " + (o->before.sig_sum != o->at_exec.sig_sum ? "when the real exec is entered" : "after the call"));
         if (cv.op->faults.empty()) {
             RecJudge j = judge_record(cv, r);
-            if (j.v.violated) { j.v.cls = "thread-" + j.v.cls; return j.v; }
+            // stdout and stderr are buffers shared by the threads: whoever flushes carries out the records of the others too, so the bytes
+            // a call's own writes carry say nothing about that call; those sinks are judged as a whole stream below
+            bool shared_stream = cv.batch_threads > 1 && (j.exp.sink == "stdout" || j.exp.sink == "stderr") && (j.v.cls == "record-content" || j.v.cls == "record-count" || j.v.cls == "record-missing" || j.v.cls == "record-not-out-before-exec");
+            if (j.v.violated && !shared_stream) { j.v.cls = "thread-" + j.v.cls; return j.v; }
         }
         std::string got; for (auto &d : deliveries_all(r, cv.opi)) got += d.bytes;
+        if (cv.batch_threads > 1 && !got.empty() && (got == r.end_world.stdout_bytes.substr(0, got.size()) || r.end_world.stdout_bytes.find(got) != std::string::npos || r.end_world.stderr_bytes.find(got) != std::string::npos)) {
+            RecJudge j2 = judge_record(cv, r); if (j2.exp.sink == "stdout" || j2.exp.sink == "stderr") got.clear();   // the markers of other calls are legitimately among the bytes this call flushed
+        }
         for (int i = 0; i < nmark; i++) {
             std::string m = marker_of(i);
             if (cv.op->path.find(m) != std::string::npos) continue;
             if (got.find(m) != std::string::npos) return bad("cross-thread-leak", "record of call #" + std::to_string(cv.opi) + " (thread " + std::to_string(o->thr) + ") contains marker " + m + " of another call: " + show(got, 200));
         }
+    }
+    // byte streams shared by all threads (stdout, stderr, the terminal): what arrived is a sequence of whole records, never one record's
+    // bytes inside another's
+    for (int which = 0; which < 3; which++) {
+        const std::string &stream = which == 0 ? r.end_world.stdout_bytes : which == 1 ? r.end_world.stderr_bytes : r.end_world.tty_bytes;
+        const char *sink = which == 0 ? "stdout" : which == 1 ? "stderr" : "tty";
+        std::vector<std::vector<std::string>> recs; bool all_known = true;   // per call: the acceptable texts of its record
+        for (auto &cv : calls) {
+            if (cv.batch_threads <= 1) continue;
+            CallCtx ctx = make_ctx(cv.w, *cv.op, r, cv.opi); ctx.threads_hi = cv.batch_threads;
+            Expected e = model_call(cv.w, *cv.op, ctx);
+            if (e.sink != sink) continue;
+            if (!cv.op->faults.empty() || !e.modelled || !e.decided || !e.exact || e.cfg.error_logging) { all_known = false; continue; }
+            if (e.log && !e.records.empty()) recs.push_back(e.records);
+        }
+        if (!all_known || recs.empty()) continue;
+        size_t pos = 0; auto todo = recs;
+        while (pos < stream.size()) {
+            bool hit = false;
+            for (size_t i = 0; i < todo.size() && !hit; i++) for (auto &alt : todo[i]) if (!alt.empty() && stream.compare(pos, alt.size(), alt) == 0) { pos += alt.size(); todo.erase(todo.begin() + (long)i); hit = true; break; }
+            if (!hit) return bad("stream-records-interleaved", std::string(sink) + " at offset " + std::to_string(pos) + " does not continue with a whole record of one of the calls: " + show(stream.substr(pos, 80)));
+        }
+        if (!todo.empty()) return bad("stream-record-missing", std::to_string(todo.size()) + " records never arrived at " + sink);
     }
     return ok();
 }
@@ -196,6 +229,10 @@ static Plan gen_c10(uint64_t seed, const std::string &) {
     World &w = p.world; w.socks["/run/snoopy-0.sock"] = SockNode(); w.has_ctty = true;
     static const char *outs[] = {"file:/log/c10.log", "devlog", "socket:/run/snoopy-0.sock", "stderr", "stdout", "devtty", "devnull"};
     CfgSpec s; s.has_format = true; s.format = "T%{snoopy_threads}T %{filename} %{cmdline} %{username}"; s.has_output = true; s.output = outs[base % 7];
+    // whatever a data source or filter locks while thread B is inside it is copied into the child as it is: every data source and the
+    // filters take their turn in the format of the family
+    s.format += std::string(" ") + C09_LAST[r.below(C09_NLAST)] + " " + C09_LAST[r.below(C09_NLAST)];
+    if (r.chance(1, 2)) { s.has_chain = true; s.chain = "exclude_uid:" + std::to_string(w.uid + 1) + "," + std::to_string(w.uid + 2) + ";exclude_spawns_of:nosuch,nosuch2;only_uid:" + std::to_string(w.uid + 3) + "," + std::to_string(w.uid); }
     p.ops.push_back(op_setconfig(s.render(r, true)));
     Op f; f.op = "ForkExec";
     f.ex.path = "/bin/parentB"; f.ex.argv = {"parentB", "x"}; f.ex.success = false; f.ex.err = 2; f.ex.ret = -1;
@@ -239,7 +276,10 @@ static Verdict oracle_c10(const Plan &p, const RunResult &r) {
     for (auto &cv : calls_of(p)) {
         const ExecObs *o = obs_of(r, cv.opi); if (!o) return bad("parent-disturbed", "thread B has no observation");
         v = passthrough_oracle(*cv.op, *o, r); if (v.violated) { v.cls = "parent-" + v.cls; return v; }
-        RecJudge j = judge_record(cv, r); if (j.v.violated) { j.v.cls = "parent-" + j.v.cls; return j.v; }
+        RecJudge j = judge_record(cv, r);
+        // stdout/stderr are buffers shared by the parent's threads: whoever flushes carries out the others' records too (see C09)
+        bool shared_stream = cv.batch_threads > 1 && (j.exp.sink == "stdout" || j.exp.sink == "stderr") && (j.v.cls == "record-content" || j.v.cls == "record-count" || j.v.cls == "record-missing" || j.v.cls == "record-not-out-before-exec");
+        if (j.v.violated && !shared_stream) { j.v.cls = "parent-" + j.v.cls; return j.v; }
     }
     return ok();
 }
